@@ -202,6 +202,14 @@ func runC17(m *Sim) {
 	if err := cl.Start(); err != nil {
 		m.Fail("C17.start", "client", "client does not start: %v", err)
 	}
+	// Rounds are driven one at a time by the harness: the client's own loop
+	// is held at its tick (a stalled thread), so no round of its own cadence
+	// overlaps and the reply a successful round accepted is unambiguous.
+	holdLoop := func() {
+		w.S.Hold(cl.Name + ":send.wake")
+		w.S.Hold(cl.Name + ":send.tick")
+	}
+	holdLoop()
 	// Every reply the client reads during a round is recorded.
 	var replies [][]byte
 	var contacted []*ServerNode
@@ -292,6 +300,7 @@ func runC17(m *Sim) {
 			if err := cl.Start(); err != nil {
 				m.Fail("C17.start", "client-restart", "client does not restart: %v", err)
 			}
+			holdLoop()
 			m.Probe("c17.cli.restart")
 			compare("restart")
 		}
